@@ -82,3 +82,6 @@ Qed.
 Lemma send_embedded_chunk_ignored :
   calls (actions_of (ex_send [RChunk (122 :: stop_command)])) = [].
 Proof. vm_compute. reflexivity. Qed.
+
+Lemma stop_block_ack : stop_block shutdown_ack = [Call stop_name []; Send shutdown_ack; Stop].
+Proof. reflexivity. Qed.
